@@ -169,9 +169,11 @@ fn main() {
 
     let sizes: Vec<usize> = if args.thorough {
         let mut v: Vec<usize> = (1..=1024).collect();
-        for k in 11..=17 {
+        for k in 11..=12 {
             v.extend([(1 << k) - 1, 1 << k, (1 << k) + 1]);
         }
+        // a few large trees (node counts / offsets past 2^15, 2^16, 2^17); each costs ~1 MB of operation text
+        v.extend([32769, 65535, 65537, 131073]);
         v
     } else {
         let mut v: Vec<usize> = (1..=40).collect();
